@@ -399,9 +399,11 @@ ssize_t _GD_SampIndRead(struct gd_raw_file_ *restrict file, void *restrict ptr,
 
   /* not enough data in the current run */
   while (f->s - f->p < (int64_t)(nelem - count)) {
-    /* copy what we've got */
-    cur = _GD_Duplicate(cur, f->d + 1, GD_SIZE(data_type), f->s - f->p + 1);
-    count += f->s - f->p + 1;
+    /* copy what we've got -- which is nothing if the I/O pointer has been
+     * moved past the end of the last record */
+    const int64_t have = (f->p > f->s) ? 0 : f->s - f->p + 1;
+    cur = _GD_Duplicate(cur, f->d + 1, GD_SIZE(data_type), have);
+    count += have;
 
     DPRINTF;
 
@@ -420,7 +422,7 @@ ssize_t _GD_SampIndRead(struct gd_raw_file_ *restrict file, void *restrict ptr,
     _GD_Duplicate(cur, f->d + 1, GD_SIZE(data_type), nelem - count);
     f->p += nelem - count;
     count = nelem;
-  } else {
+  } else if (f->p <= f->s) {
     _GD_Duplicate(cur, f->d + 1, GD_SIZE(data_type), f->s - f->p + 1);
     count += f->s - f->p + 1;
     f->p = f->s + 1;
